@@ -4,6 +4,18 @@ claimed / not_applicable partition is always consistent)."""
 import json
 
 CLAIMS = {
+ 'C17': dict(
+   text='Static must-analysis of the all-or-nothing clause over every path (normal, exceptional, finally) of the five '
+        '_todb_* implementations and their delegates: every commit() is reached only after the statement that consumes the '
+        'whole source has completed normally; no commit in an except/finally region or between truncate and insert; no '
+        'handler swallows a failure of the insert; a connection opened by petl is closed in a finally enclosing the load; '
+        'todb/appenddb pass truncate=True/False and forward commit through the dispatcher. A failure at ANY row index '
+        'then commits nothing, for every kind of database handle, which no single run can show.',
+   ref='DESIGN.md §4 C17',
+   note='atomicity clause only; the round-trip clause (rows read back equal rows written) is value-level and not decided; '
+        'assumes DB-API transaction semantics (pending until commit, rollback on close); DDL of create=True is outside',
+   technique='path-sensitive must-facts (typestate "source consumed") on a structured abstract interpreter with '
+             'exception and finally edges + call forwarding check'),
  'C13': dict(
    text='Static decision that selections apply exactly their documented predicate and that complement is the exact '
         'Boolean complement: the yield guard of iterfieldselect / iterrowselect / itersearch is evaluated for all four '
